@@ -12,6 +12,8 @@ import ScalesModel.Adapter.E2E
 import ScalesModel.Adapter.TagPool
 import ScalesModel.Adapter.FrontEnd
 import ScalesModel.Proofs.MuxTimeoutLemmas
+import ScalesModel.Adapter.Serial
+import ScalesModel.Props.C07
 namespace Scales.C12
 
 open Scales.TagPool in
@@ -347,5 +349,69 @@ open Scales.FrontEnd in
     below that looks at the event afterwards sees it set -/
 theorem C12_frontend_timer_raises_event (cl : Call) (now : Nat) : (cl.fire now).evtSet = true := by
   unfold Call.fire; split <;> rfl
+
+open Scales.Serial Scales.Transport in
+/-- Serial transport hop (pre-write check): a request whose deadline has already passed when the
+    transaction starts is answered with TimeoutError, nothing is written, and the transaction is
+    gone (so no later I/O step can write it). -/
+theorem C12_serial_expired_not_written (s : Serial.St) (id : Nat) (r : Conn) (hp : s.processing = none) :
+    (s.request id (.past r)).2.sent = [] ∧ (s.request id (.past r)).1.processing = none ∧
+    (id, Resp.timeout) ∈ (s.request id (.past r)).2.eff.dels := by
+  unfold Serial.St.request
+  simp only [hp]
+  unfold Serial.St.txnTimeout
+  simp only
+  split
+  · cases r <;> simp [Serial.St.fault] <;> split <;> simp
+  · simp
+
+open Scales.Serial Scales.Transport in
+/-- Serial transport hop (in flight): when the transaction's timeout fires, the transaction is
+    gone; a step of the transport can put a frame on the wire only for the transaction in
+    flight, so nothing of that request is written afterwards. -/
+theorem C12_serial_timeout_ends_transaction (s : Serial.St) (r : Conn) (t : Txn)
+    (hp : s.processing = some t) (hd : t.hasDl = true) :
+    (s.timeoutHere r).1.processing = none ∧ (s.timeoutHere r).2.sent = [] ∧
+    (∀ o, ((s.timeoutHere r).1.io o).2.sent = []) := by
+  have h1 : (s.timeoutHere r).1.processing = none := by
+    unfold Serial.St.timeoutHere Serial.St.txnTimeout
+    simp only [hp, hd, if_true]
+    split
+    · cases r <;> simp [Serial.St.fault] <;> split <;> simp
+    · simp
+  refine ⟨h1, ?_, ?_⟩
+  · unfold Serial.St.timeoutHere; simp [hp, hd]
+  · intro o; unfold Serial.St.io; simp [h1]
+
+open Scales.Serial in
+/-- a frame reaches the peer only in an `io ok` step of a transaction blocked in its write -/
+theorem C12_serial_writes_only_in_flight (s : Serial.St) (o : Transport.IOOut) (id : Nat)
+    (h : id ∈ (s.io o).2.sent) : ∃ t, s.processing = some t ∧ t.id = id ∧ t.phase = .write := by
+  unfold Serial.St.io at h
+  split at h
+  · simp at h
+  · rename_i t ht
+    split at h
+    · simp [Serial.St.txnFail] at h
+    · simp [Serial.St.txnFail] at h
+    · split at h
+      · simp at h; exact ⟨t, ht, h.symm, by assumption⟩
+      · simp at h
+      · simp at h
+
+open Scales.Watermark in
+/-- Pool hop: a waiter that completed (timed out) while queued is skipped by the hand-off and
+    the connection goes to the oldest waiter that is still pending — C07's theorem, restated
+    here because it is the pool's part of this property. -/
+theorem C12_pool_skips_timed_out (cfg : Watermark.Cfg) (ops : List Watermark.Op) (sid c : Nat)
+    (rest w1 w2 : List Nat)
+    (ht : (runOps cfg Watermark.St.init ops).tasks = sid :: rest)
+    (hw : (runOps cfg Watermark.St.init ops).waiters = w1 ++ c :: w2)
+    (hgone : ∀ x ∈ w1, (runOps cfg Watermark.St.init ops).base.calls[x]? ≠ some .pending)
+    (hc : (runOps cfg Watermark.St.init ops).base.calls[c]? = some .pending) :
+    -- only the pending waiter `c` is handed the connection: no request of a completed waiter
+    -- is started
+    (Watermark.step cfg (runOps cfg Watermark.St.init ops) .run).2.evs = [.sent sid c] :=
+  (C07_timed_out_waiter_skipped cfg ops sid c rest w1 w2 ht hw hgone hc).1
 
 end Scales.C12
